@@ -170,6 +170,18 @@ CHECKS["C07"] = dict(
          "The float matrices themselves (scipy expm) are outside the solver's reach: clause (c) is numeric.",
     design="3/C07")
 
+CHECKS["C20"] = dict(
+    engine="cyclo+symx",
+    technique="SMT (z3 QF_LRA): the real toolbox->SDK->assembler pipeline on an exact state-vector executor over Q(zeta_64); arbitrary input state as free real coordinates; outcome bits fork in symx",
+    text="toffoli_gate (3, thorough 6, qubit-to-id assignments), t_inverse, parity_meas for every Pauli string over I,X,Y,Z of length 1..3 "
+         "with and without '-' (quick: all of length 1-2 and the length-3 strings with at most one identity) and set_qubit_state on a dyadic "
+         "angle grid incl. negative angles and angles beyond 2 pi run through the real pipeline; the executor keeps the exact linear map "
+         "from the free input state; z3 decides per path (both outcomes) equality with the Toffoli permutation / T-dagger / the projector "
+         "(I +- P)/2 / the documented state up to zeta^k, and the returned value equals the signed parity.",
+    note="Trusted: z3; vf/cyclo.py and vf/statevec.py (operator semantics written from the NetQASM definitions). create_ghz and "
+         "non-dyadic set_qubit_state angles are outside (the latter is composed from C19).",
+    design="3/C20")
+
 NOT_YET = "check not built yet in this revision (work in progress; see DESIGN.md section 3 for the planned solver-based check)"
 NOT_APPLICABLE = {}
 
